@@ -148,15 +148,19 @@ def store (v : Var) (name : Str) (value : Val) : Res Var :=
     | some t => v.insertTy t name value
     | none => err Code.internalError
 
-/-- `vec_val_to_vec_i16`: per subscript, first the conversion, then the sign test -/
+/-- `vec_val_to_vec_i16`: per subscript, first the conversion, then the sign test; a *number* that
+    does not fit an Integer is SUBSCRIPT OUT OF RANGE like any other, a non-number keeps the
+    conversion's own error (TYPE MISMATCH) -/
 def vecValToVecI16 : List Val → Res (List Int16)
   | [] => .ok []
-  | x :: r => do
-    let n ← x.toI16
-    if n < 0 then err Code.subscriptOutOfRange
-    else do
-      let rest ← vecValToVecI16 r
-      .ok (n :: rest)
+  | x :: r =>
+    match x.toI16 with
+    | .ok n =>
+      if n < 0 then err Code.subscriptOutOfRange
+      else do
+        let rest ← vecValToVecI16 r
+        .ok (n :: rest)
+    | .error e => if x.isNumeric then err Code.subscriptOutOfRange else .error e
 
 /-- the key text of an array element: `name,i1,i2,name` -/
 def arrayKey (name : Str) (idx : List Int16) : Str :=
